@@ -1,7 +1,8 @@
 ------------------------------- MODULE Superpose -------------------------------
 (***************************************************************************)
 (* C06.  Three expression-level laws of the image-formation pipeline.      *)
-(*  Mode "collection": a collection of k spheres (each uniform or layered) *)
+(*  Mode "collection": a collection of k spheres (each uniform, layered, or *)
+(*     a "twin": same index and radius as every other twin, its own place) *)
 (*     under a theory that treats spheres independently; the field is the  *)
 (*     sum over members:  Terms = one single-sphere term per member.       *)
 (*  Mode "linear": incident polarisation (a, b) from a set of classes; the *)
@@ -20,7 +21,7 @@ CONSTANTS Mode, MaxMembers
 VARIABLES req
 vars == <<req>>
 
-Kinds == {"uniform", "layered"}
+Kinds == {"uniform", "layered", "twin"}
 Quantities == {"wavelength", "polarisation", "scaling", "index", "radius"}
 Encodings == {"scalar", "dict", "array"}
 Orders == {"sorted", "reversed", "rotated"}
@@ -41,8 +42,11 @@ Init ==
      /\ req \in {[members |-> m] : m \in UNION {[1..k -> Kinds] : k \in 1..MaxMembers}}
   \/ /\ Mode = "linear" /\ req \in {[pol |-> p] : p \in PolClasses}
   \/ /\ Mode = "channels"
-     /\ req \in {[nch |-> n, enc |-> e, order |-> o] :
-                   n \in {2, 3}, e \in [Quantities -> Encodings], o \in [Quantities -> Orders]}
+     /\ req \in {[nch |-> n, enc |-> e, order |-> o, rows |-> w] :
+                   n \in {2, 3}, e \in [Quantities -> Encodings], o \in [Quantities -> Orders],
+                   w \in {"unit", "as_given"}}
+     \* a labelled array of polarisations may carry rows of any length; only the direction counts
+     /\ req.rows = "as_given" => req.enc["polarisation"] = "array"
      /\ req.enc["wavelength"] # "scalar"              \* several channels need several wavelengths
      /\ \A q \in Quantities : req.enc[q] = "scalar" => req.order[q] = "sorted"
      /\ \A q \in Quantities : (req.order[q] = "rotated") => req.nch = 3
